@@ -674,6 +674,10 @@ def _st(x):
 
 
 def sym_getitem(it, o, k):
+    # s[a:] of a symbolic string with a concrete non-negative start: the suffix from a (empty when the string is shorter)
+    if isinstance(o, Sym) and o.kind == "str" and isinstance(k, slice) and isinstance(k.start, int) and k.start >= 0 and k.stop is None and k.step is None:
+        n = z3.Length(o.t)
+        return SStr(z3.If(n >= k.start, z3.SubString(o.t, k.start, n - k.start), z3.StringVal("")))
     raise Unsupported(f"subscript of symbolic value {o!r}")
 
 
